@@ -259,10 +259,9 @@ class Scen(CompScenario):
                 self.hit("blocked_though_ready")
             if done[p]:
                 got = self._vals(obs, f"{p}.o.data")
-                if p == "read":
+                # an executed peek is the non-consuming read: it shows the payload a read would consume
+                if p == "read" or valid:
                     self.expect(got == payload, "data-mismatch", f"{p} returned {got}, stream offers {payload}", port=p)
-                elif got != payload:
-                    self.hit("peek_returned_other_than_offered")
         transfer = bool(valid and ready)
         if done["read"]:
             self.expect(transfer, "read-did-not-consume", f"read executed but ready={ready}: the payload stays offered")
